@@ -768,11 +768,11 @@ pub fn mtgraph_run(src: &mut Src, ctx: &mut RunCtx, prop: &'static str, c07: Opt
     let ff2 = fail_flag.clone();
     let res = sched.run_root(move || {
         rustradio::verif::set_stream_size(small);
-        let built = build(&rec2);
+        let mut built = build(&rec2);
         rustradio::verif::set_stream_size(0);
         *ff2.lock().unwrap() = built.fail_flags.first().cloned();
         let mut blocks: Vec<Box<dyn Block + Send>> = Vec::new();
-        for b in built.blocks {
+        for b in std::mem::take(&mut built.blocks) {
             let name = b.block_name().to_string();
             let (c, calls, after) = Counted::new(b, p2.clone());
             c2.lock().unwrap().push((name, calls, after));
@@ -807,7 +807,7 @@ pub fn mtgraph_run(src: &mut Src, ctx: &mut RunCtx, prop: &'static str, c07: Opt
         if let Some(c) = canceller {
             let _ = c.join();
         }
-        *so2.lock().unwrap() = Some(built.sink.bytes());
+        *so2.lock().unwrap() = Some(built.all_sink_bytes());
     });
     finish_sched(&sched, src, ctx);
     let g = sched.lock();
